@@ -227,7 +227,7 @@ def main():
         conds.append(xh.Cond(H, "kf_deleted_page", timeout=T, env=env0, meta={"family": "known", "known_finding": "KF-C06-1"}))
     # family history_real: short histories over the unpatched zorg (real SQLite / SQLRepo / compiler) in a temp directory
     n_hist = xh.eval_in_harness(HR, "len(ADM)")
-    stride = 16 if tier == "quick" else 1
+    stride = 64 if tier == "quick" else 4
     hstep = (n_hist + 15) // 16
     for lo in range(0, n_hist, hstep):
         hi = min(n_hist, lo + hstep)
